@@ -62,6 +62,8 @@ type Call struct {
 	Gate int    `json:"gate"` // id of the gate this call parks in (0 = none)
 	Sh   string `json:"sh"`   // shape name of spec/Conc.tla (sched scenarios)
 	Hold bool   `json:"hold"` // Writer/Reader only: stall the pipe at gate Gate (worker parked inside the real minifier)
+	At   int    `json:"at"`   // Reader hold: bytes of output to read before stalling (the worker then blocks wherever its
+	// next write is: possibly inside a nested minifier that writes an embedded resource)
 }
 
 type Op struct {
@@ -164,6 +166,20 @@ func gateFn(_ *minify.M, w io.Writer, r io.Reader, params map[string]string) err
 	return err
 }
 
+// failFn is a user minifier that fails AFTER it has written part of its output.
+func failFn(_ *minify.M, w io.Writer, r io.Reader, params map[string]string) error {
+	b, err := io.ReadAll(r)
+	if err != nil {
+		return err
+	}
+	if len(b) > 8 {
+		b = b[:8]
+	}
+	w.Write([]byte("partial:"))
+	w.Write(b)
+	return fmt.Errorf("failfn: giving up after %d bytes of input", len(b))
+}
+
 func upperFn(_ *minify.M, w io.Writer, r io.Reader, params map[string]string) error {
 	b, err := io.ReadAll(r)
 	if err != nil {
@@ -183,6 +199,7 @@ var (
 	reCmd    = regexp.MustCompile("^x-cmdre/")
 	reCmdIO  = regexp.MustCompile("^x-cmdio/")
 	reCmdOut = regexp.MustCompile("^x-cmdout/")
+	reFail   = regexp.MustCompile("^x-failre/")
 	reUpper  = regexp.MustCompile("/x-upper$")
 	matchMTs = []string{"text/html", "text/css; inline=1", "image/svg+xml", "application/javascript", "text/x-ecmascript",
 		"application/ld+json", "application/rss+xml", "text/xml; charset=utf-8", "x-gatere/a; id=0", "x-cmdre/q", "a/x-upper", "text/plain", "x-cmd/cat"}
@@ -202,6 +219,7 @@ type reg struct {
 	cmd4 *exec.Cmd // $in and $out placeholders
 	cmd5 *exec.Cmd // $out only: stdin in, result file out
 	cmd6 *exec.Cmd // $out.ext only, served by a pattern
+	cmd7 *exec.Cmd // copies its input to its output, then exits with status 3
 }
 
 // newReg builds the fully registered registry; the option structs are the SHARED values the
@@ -235,6 +253,7 @@ func newReg(optset int) *reg {
 	r.cmd4 = exec.Command("cp", "$in", "$out")
 	r.cmd5 = exec.Command("sh", "-c", "cat > $out")
 	r.cmd6 = exec.Command("sh", "-c", "tr a-z A-Z > $out.txt")
+	r.cmd7 = exec.Command("sh", "-c", "cat; exit 3")
 	m := r.m
 	m.Add("text/html", r.html)
 	m.Add("text/css", r.css)
@@ -250,6 +269,9 @@ func newReg(optset int) *reg {
 	m.AddCmdRegexp(reCmdIO, r.cmd4)
 	m.AddCmd("x-cmd/out", r.cmd5)
 	m.AddCmdRegexp(reCmdOut, r.cmd6)
+	m.AddCmd("x-cmd/fail", r.cmd7)
+	m.AddFunc("text/x-failafter", failFn)
+	m.AddFuncRegexp(reFail, failFn)
 	m.AddFuncRegexp(reUpper, upperFn)
 	return r
 }
@@ -261,9 +283,9 @@ func cmdSnap(c *exec.Cmd) string {
 
 // snapshot renders every user-supplied option value (unexported fields included).
 func (r *reg) snapshot() string {
-	return fmt.Sprintf("html=%#v css=%#v svg=%#v js=%#v json=%#v xml=%#v cmd1=%s cmd2=%s cmd3=%s cmd4=%s cmd5=%s cmd6=%s url=%v",
+	return fmt.Sprintf("html=%#v css=%#v svg=%#v js=%#v json=%#v xml=%#v cmd1=%s cmd2=%s cmd3=%s cmd4=%s cmd5=%s cmd6=%s cmd7=%s url=%v",
 		*r.html, *r.css, *r.svg, *r.js, *r.json, *r.xml, cmdSnap(r.cmd1), cmdSnap(r.cmd2), cmdSnap(r.cmd3), cmdSnap(r.cmd4),
-		cmdSnap(r.cmd5), cmdSnap(r.cmd6), r.m.URL)
+		cmdSnap(r.cmd5), cmdSnap(r.cmd6), cmdSnap(r.cmd7), r.m.URL)
 }
 
 // ---------------------------------------------------------------- one call through one entry point
@@ -350,11 +372,14 @@ func doCall(m *minify.M, c Call) (res result) {
 			var first []byte
 			if c.Hold {
 				// read one byte: the worker has started writing its output and blocks on the rest of it
-				b1 := make([]byte, 1)
-				if n, _ := io.ReadFull(rd, b1); n == 1 {
-					first = b1
-					park(c)
+				k := c.At
+				if k < 1 {
+					k = 1
 				}
+				b1 := make([]byte, k)
+				n, _ := io.ReadFull(rd, b1)
+				first = b1[:n]
+				park(c) // (a shorter output: the worker has already returned; parking then only delays the caller)
 			}
 			out, err = io.ReadAll(rd)
 			out = append(first, out...)
@@ -546,7 +571,9 @@ func runSched(sc *Scenario) {
 		case "parked":
 			select {
 			case <-tbl[c.Gate].arrived:
-				emit(Line{Ev: "parked", Sc: sc.ID, G: op.G, K: op.K, Sh: c.Sh, Key: keyOf(sc, c)})
+				// the option structs while a call is parked half-way (e.g. below html, inside a nested call): they
+				// must render as before the scenario - a change that is undone before the call returns shows here
+				emit(Line{Ev: "parked", Sc: sc.ID, G: op.G, K: op.K, Sh: c.Sh, Key: keyOf(sc, c), O1: before, O2: r.snapshot()})
 			case <-time.After(deadline):
 				emit(Line{Ev: "blocked", Sc: sc.ID, G: op.G, K: op.K, Sh: c.Sh, Key: keyOf(sc, c), Note: "did not reach its gate within the deadline"})
 				aborted = true
@@ -624,7 +651,7 @@ func runStress(sc *Scenario) {
 	for i, c := range sc.Parked {
 		select {
 		case <-tbl[c.Gate].arrived:
-			emit(Line{Ev: "parkedx", Sc: sc.ID, G: -(i + 1), K: 1, Key: keyOf(sc, c)})
+			emit(Line{Ev: "parkedx", Sc: sc.ID, G: -(i + 1), K: 1, Key: keyOf(sc, c), O1: before, O2: r.snapshot()})
 		case <-time.After(deadline):
 			emit(Line{Ev: "blocked", Sc: sc.ID, G: -(i + 1), K: 1, Key: keyOf(sc, c), Note: "parked reader did not reach its gate"})
 			ok = false
@@ -762,6 +789,10 @@ func runShape(sc *Scenario) {
 		_, _, cmd6Fn := r.m.Match("x-cmdout/x")
 		m2.AddFunc("x-cmd/out", wrapRec("cmdin", cmd5Fn))
 		m2.AddFuncRegexp(reCmdOut, wrapRec("cmdin", cmd6Fn))
+		_, _, cmd7Fn := r.m.Match("x-cmd/fail")
+		m2.AddFunc("x-cmd/fail", wrapRec("cmd", cmd7Fn))
+		m2.AddFunc("text/x-failafter", wrapRec("failfn", failFn))
+		m2.AddFuncRegexp(reFail, wrapRec("failfn", failFn))
 		m2.AddFuncRegexp(reUpper, wrapRec("upper", upperFn))
 		recRoot, recStack = nil, nil
 		entry := "Bytes"
